@@ -351,6 +351,7 @@ class RefCompu:
         self.pieces: List[_Piece] = []
         self.points: List[Tuple[F, F]] = []
         self._vi_memo: Dict[Any, Optional[bool]] = {}
+        self._i2p_memo: Dict[Any, Any] = {}
         tt = self.cat == "TEXTTABLE"
         self.cs_i2p = [_CScale(s, tt) for s in cm.get("i2p") or []] if self.cat != "TAB-INTP" else []
         self.cs_p2i = [_CScale(s) for s in cm.get("p2i") or []]
@@ -525,6 +526,17 @@ class RefCompu:
         return None
 
     def int_to_phys_accept(self, x: Any) -> Union[Accept, _Sentinel]:
+        """The admissible results of converting the internal value x: Accept | INVALID | DONT_CARE."""
+        try:
+            k = (type(x), x)
+            return self._i2p_memo[k]
+        except KeyError:
+            r = self._i2p_memo[k] = self._int_to_phys_accept(x)
+            return r
+        except TypeError:
+            return self._int_to_phys_accept(x)
+
+    def _int_to_phys_accept(self, x: Any) -> Union[Accept, _Sentinel]:
         v = self.valid_internal(x)
         if v is False:
             return INVALID
